@@ -104,10 +104,6 @@ func NewUnsignedTransaction(outputs []*wire.TxOut, feeRatePerKb btcutil.Amount,
 		if err != nil {
 			return nil, err
 		}
-		if inputAmount < targetAmount+targetFee {
-			return nil, insufficientFundsError{}
-		}
-
 		// We count the types of inputs, which we'll use to estimate
 		// the vsize of the transaction.
 		var nested, p2wpkh, p2tr, p2pkh int
@@ -131,6 +127,17 @@ func NewUnsignedTransaction(outputs []*wire.TxOut, feeRatePerKb btcutil.Amount,
 		)
 		maxRequiredFee := txrules.FeeForSerializeSize(feeRatePerKb, maxSignedSize)
 		remainingAmount := inputAmount - targetAmount
+
+		// If the source returned less than what was asked for, it has
+		// nothing more to offer. That's only insufficient if the
+		// returned inputs can't pay the fee for the transaction they
+		// actually form: the target fee may have been estimated for
+		// larger input types than the ones we got.
+		if inputAmount < targetAmount+targetFee &&
+			remainingAmount < maxRequiredFee {
+
+			return nil, insufficientFundsError{}
+		}
 		if remainingAmount < maxRequiredFee {
 			targetFee = maxRequiredFee
 			continue
